@@ -92,14 +92,16 @@ CLI_TIERS = {
 }
 
 
-def run(tier, seed, regress=True, http=False, cli=False):
-    cfg = (CLI_TIERS if cli else HTTP_TIERS if http else TIERS)[tier]
+def run(tier, seed, regress=True, http=False, cli=False, nu=False):
+    cfg = (CLI_TIERS if cli else HTTP_TIERS if http or nu else TIERS)[tier]
     t0 = time.time()
-    gname = "cli" if cli else "http" if http else "store"
+    gname = "nu" if nu else "cli" if cli else "http" if http else "store"
     http = http or cli
     renv = {}
     if cli:
         renv["XSV_CLI"] = build_xs_bin()
+    if nu:
+        renv["XSV_NU"] = "1"
     res = {"group": gname, "tier": tier, "seed": seed}
     # (1) the design, as modelled
     mcs = [model_check("MCXsStore.tla", c) for c in cfg["mc"]]
